@@ -129,7 +129,7 @@ theorem eventPhase_fired_last_sample (L : Lits K) (gEv : K → Array K → Array
         · cases h
         · rename_i lst log _ sorted _
           injection h with h; injection h with h1 h2
-          obtain ⟨te, ye, i, _, ht⟩ := processEvs_fired _ _ _ sorted _ _ (Prod.ext rfl h2)
+          obtain ⟨te, ye, i, _, ht⟩ := processEvs_fired _ _ _ _ sorted _ _ (Prod.ext rfl h2)
           exact ⟨te, by rw [← h1]; exact ht⟩
   · simp only [gt_iff_lt, hn, if_false] at h
     injection h with h; injection h with _ hb; cases hb
